@@ -10,7 +10,7 @@ for src in sys.argv[1:]:      # later sources override earlier ones (re-runs of 
                 res[name] = {c: v["rc"] for c, v in r.items() if isinstance(v, dict) and v.get("rc")}
     else:
         for l in open(src):
-            m = re.match(r"^(C\d\d-[A-F]) (\{.*\})\s*$", l)
+            m = re.match(r"^(C\d\d-[A-Z]) (\{.*\})\s*$", l)
             if m and (ast.literal_eval(m.group(2)) or m.group(1) not in res):
                 res[m.group(1)] = ast.literal_eval(m.group(2))
 json.dump(res, open(os.path.join(V, "seeded", "matrix.json"), "w"), indent=1, sort_keys=True)
@@ -28,6 +28,11 @@ for name in sorted(res):
         uncaught.append(name)
     if r.get(own) != 1:
         own_miss.append(name)
+allnames = sorted(d for d in os.listdir(os.path.join(V, "seeded")) if os.path.isdir(os.path.join(V, "seeded", d)))
+missing = [n for n in allnames if n not in res]
+if missing:
+    out.append("\nRows not run in this table (their own check was run separately, see DESIGN.md 10.5): %s\n" % ", ".join(missing))
+out.append("\nRows A-F were produced before the round-4 strengthening of the checks, rows G-H after it; a cell can only have turned from blank to `x` since.\n")
 out.append("\nChanges not caught by any check: %s\n" % (", ".join(uncaught) or "none"))
 out.append("Changes not caught by the check of the property they were written against (but caught elsewhere): %s\n" % (", ".join(n for n in own_miss if n not in uncaught) or "none"))
 per = {c: sum(1 for r in res.values() if r.get(c) == 1) for c in checks}
